@@ -168,3 +168,15 @@ Theorem C01_map2_nk_converge (H : list (oprec (mop (mop oop)))) :
   m2hist_ok_nk H -> forall (s1 s2 : cmap (cmap orswot)) (K : gset nat), m2reach_nk H s1 K -> m2reach_nk H s2 K -> s1 = s2.
 Proof. exact (map2_converge_nk H). Qed.
 Print Assumptions C01_map2_nk_converge.
+
+(** Map<K, Orswot> WITH key removes and merges, in the fragment the known findings leave: members are added under keys and keys are removed (no nested remove: T3), and every key that some key remove names is updated at most once by each actor ([km_once]: T2 needs two updates of one actor): the COMPLETE state is a function of the knowledge under per-actor delivery, duplicates and merges (proofs/MapOrswotKM.v) *)
+From Crdt Require Import model.Orswot model.Map spec.System spec.OrswotSpec spec.OrswotSystem spec.MapSpec spec.MapSystem spec.MapOrswotSpec spec.MapOrswotKM proofs.MapOrswotKM proofs.MapOrswotKMCor.
+Theorem C01_mapor_km_refine (H : list (oprec (mop oop))) :
+  mohist_ok_km H -> km_once H -> forall (s : cmap orswot) (K : gset nat), moreach_km H s K -> s = mapor_spec_km H K.
+Proof. exact (mapor_refine_km H). Qed.
+Print Assumptions C01_mapor_km_refine.
+
+Theorem C01_mapor_km_converge (H : list (oprec (mop oop))) :
+  mohist_ok_km H -> km_once H -> forall (s1 s2 : cmap orswot) (K : gset nat), moreach_km H s1 K -> moreach_km H s2 K -> s1 = s2.
+Proof. exact (mapor_converge_km H). Qed.
+Print Assumptions C01_mapor_km_converge.
